@@ -1,12 +1,49 @@
 """C20 - whatever taste accepts, the reader can read completely and consistently."""
+import shutil
 from . import c04
+from .. import plotgen, tastelib
 
-RULE = c04.RULE + "; for C20 the cases that count are the instances default validation accepts: each is read back in full"
+RULE = c04.RULE + ("; for C20 the cases that count are the instances default validation accepts: each is read back in full; "
+                   "plus histories on one path in one process: a plotfile read in full, replaced by another valid plotfile (same file "
+                   "names, other boxes), validated and read again")
+
+
+def replaced_directory(ctx, rep, seed, model=True):
+    """one path, one process: plotfile A is read in full, the directory is replaced by plotfile B (another mesh: FABs of other
+    shapes at the same file names and offsets), default validation accepts B, and B is read back in full"""
+    import random
+    rng = random.Random(seed)
+    nf = rng.choice([1, 2, 3])
+    a = plotgen.random_spec(rng, ndims=3, nlev=rng.choice([1, 2]), nf=nf, data="tags", B=2, layout="files")
+    for _ in range(20):
+        b = plotgen.random_spec(rng, ndims=3, nlev=rng.choice([1, 2]), nf=nf, data="bits", B=2, layout="files")
+        if b["levels"] != a["levels"]:
+            break
+    path = ctx.newdir("c20r_")
+    case = {"replaced_directory": seed}
+    rep.case({"replaced": seed}, nontrivial=True); rep.count("history:read-then-directory-replaced-then-read")
+    plotgen.materialize(a, path)
+    first = tastelib.read_back(path, tastelib.snapshot(path))
+    shutil.rmtree(path)
+    plotgen.materialize(b, path)
+    tree = tastelib.snapshot(path)
+    good, raised = tastelib.real_taste(path)
+    if not good:
+        return          # C03's business
+    probs = tastelib.read_back(path, tree)
+    for p in probs[:2]:
+        rep.fail("validation accepted the directory (which replaced another plotfile read before in this process) but " + p, case)
+    if not probs and not first:
+        rep.agree()
 
 
 def run(ctx, rep, model=True):
+    for _ in range(3 if ctx.quick else 12):
+        replaced_directory(ctx, rep, ctx.rng.randrange(1 << 30), model)
     c04.sweep(ctx, rep, model, "C20")
 
 
 def replay(ctx, rep, obj, model=True):
+    if "replaced_directory" in obj["case"]:
+        replaced_directory(ctx, rep, obj["case"]["replaced_directory"], model); return
     c04.replay(ctx, rep, obj, model=model, focus="C20")
